@@ -12,6 +12,7 @@ RULE = ("(a) synthetic PPOResults (every second one followed in the same process
         "-> mean -> squash/clip, and get_action(obs, rng) with MultivariateNormalDiag(mean, exp(log_std)).sample(seed=rng) -> squash/clip; one "
         "evaluation = one (result, observation); non-trivial = observation with >=1 normalised component outside the clip range or a sampled "
         "action; distinct by result digest x observation index")
+RULE += ' Built later: policy and reference both compiled (tolerance 2e-5 of the range); near-constant observation components (training variance far below 1e-6).'
 MIN_NONTRIVIAL = {"quick": 200, "thorough": 5000}
 DECIDING = ["deterministic_actions_compared", "sampled_actions_compared"]
 ASSUMPTIONS = ["STATE_INDEPENDENT_STD=True only (the property's quantifier)", "tolerance 2e-5 of the action range: policy and reference are both jit-compiled float32 evaluations of the same network (an eager reference differed by up to 2.9e-5 relative from the jitted policy on a depth-4 gelu net, so the reference is compiled too)"]
